@@ -7,6 +7,7 @@ src=$root/$id
 # second wave (SEEDROOT=/tmp/seed2): store variants a,b as c,d
 y=$x
 if [ "$root" = "/tmp/seed2" ]; then y=$(echo $x | tr ab cd); fi
+if [ "$root" = "/tmp/seed4" ]; then y=$(echo $x | tr ab ef); fi
 wt=/tmp/vs/$id$x
 patch=$src/patch_$x.diff; demo=$src/demo_$x.py
 [ -s "$patch" ] && [ -s "$demo" ] || { echo "missing $patch or $demo"; exit 2; }
